@@ -7,10 +7,11 @@ CONSTANTS
   Reqs <- MCReqs
   TokRank <- MCTokRank
   MaxRoutes = 3
-  ELits = {"a", "b"}
+  ELits = {"a"}
   PLits = {"a", "b"}
   Depth = 2
   PathDepth = 3
   GenMax = 3
+  Wide = FALSE
 INVARIANTS Emit
 CHECK_DEADLOCK FALSE
